@@ -75,10 +75,11 @@ Definition fold_eqb (a b : bytes) : bool := bytes_eqb (lower a) (lower b).
 
 Definition all_bytes : list byte := map byte_of_N_total (map N.of_nat (seq 0 256)).
 
-(* Adler-style checksum over small numbers (cheap in the VM): long observed outputs are compared by
-   (length, checksum) in case files instead of being shipped as literals *)
+(* checksum over small numbers (cheap in the VM): the two Adler sums and a polynomial hash modulo a 31-bit prime; long
+   observed outputs are compared by (length, checksum) in case files instead of being shipped as literals *)
 Definition fnv64 (s : bytes) : N :=
-  let '(a, c) := fold_left (fun st b => let '(a, c) := st in
-                                        let a' := ((a + Byte.to_N b) mod 65521)%N in
-                                        (a', ((c + a') mod 65521)%N)) s (1%N, 0%N) in
-  (c * 65536 + a)%N.
+  let '(a, c, h) := fold_left (fun st b => let '(a, c, h) := st in
+                                           let a' := ((a + Byte.to_N b) mod 65521)%N in
+                                           (a', ((c + a') mod 65521)%N, ((h * 1000003 + Byte.to_N b + 1) mod 2147483629)%N))
+                              s (1%N, 0%N, 7%N) in
+  (h * 4294967296 + c * 65536 + a)%N.
